@@ -11,6 +11,7 @@
 #include <sys/personality.h>
 #include <poll.h>
 #include <sanitizer/allocator_interface.h>
+#include <sanitizer/common_interface_defs.h>
 #include <exception>
 
 // Sanitizer options are compiled in so that every way of starting a worker gets them.
@@ -238,6 +239,9 @@ static bool RunOneForked(uint64_t seed, const char * optPlanPath, RunResult & r,
    return true;
 }
 
+// The worker protocol has its own stream: the code under test prints to stdout too (MicroMessage.c error texts, UMPrint indentation), which
+// must neither corrupt a protocol line nor be mistaken for one.  fd 1 is pointed at /dev/null once the protocol stream has been split off.
+static FILE * g_proto = NULL;
 int WorkerMain(int argc, char ** argv, const WorkerDef & def)
 {
    if (argc < 3)
@@ -259,6 +263,7 @@ int WorkerMain(int argc, char ** argv, const WorkerDef & def)
       setenv("VSIM_NOASLR", "1", 1);
       if (personality(ADDR_NO_RANDOMIZE) != -1) {execv("/proc/self/exe", argv); perror("execv");}
    }
+   if (g_proto == NULL) {g_proto = fdopen(dup(1), "w"); if ((mode != "exec")||(Flag(argc, argv, "--verbose") == false)) {const int nul = open("/dev/null", O_WRONLY); if (nul >= 0) {fflush(stdout); (void) dup2(nul, 1); close(nul);}}}
 
    signal(SIGALRM, OnAlarm);
    std::set_terminate(OnTerminate);
@@ -268,7 +273,7 @@ int WorkerMain(int argc, char ** argv, const WorkerDef & def)
    {
       const uint64_t seed = ToU(argv[3]);
       Plan p = pd->gen(seed);
-      for (auto & l : p) printf("%s\n", l.c_str());
+      for (auto & l : p) fprintf(g_proto, "%s\n", l.c_str());
       return 0;
    }
    if (def.warmup) def.warmup();
@@ -281,15 +286,15 @@ int WorkerMain(int argc, char ** argv, const WorkerDef & def)
       {
          if (RunOneForked(0, argv[3], r, crash) == false)
          {
-            printf("RESULT CRASH %d %d\n", WIFEXITED(crash) ? WEXITSTATUS(crash) : -1, WIFSIGNALED(crash) ? WTERMSIG(crash) : 0);
+            fprintf(g_proto, "RESULT CRASH %d %d\n", WIFEXITED(crash) ? WEXITSTATUS(crash) : -1, WIFSIGNALED(crash) ? WTERMSIG(crash) : 0);
             return WIFEXITED(crash) ? WEXITSTATUS(crash) : 70;
          }
       }
       else {Plan p = ReadPlanFile(argv[3]); RunOne(def, *pd, p, r);}
-      if (r.ok) printf("RESULT OK %016llx %d - -\n", (unsigned long long) r.hash, r.nontrivial ? 1 : 0);
-           else printf("RESULT VIOL %016llx %d %s %s\n", (unsigned long long) r.hash, r.nontrivial ? 1 : 0, r.cls.c_str(), Esc(r.detail).c_str());
-      printf("AGG {\"runs\":1,\"nontrivial\":%d,\"sim_us\":%llu,\"stats\":%s}\n", r.nontrivial ? 1 : 0, (unsigned long long) r.simMicros, r.stats.json().c_str());
-      fflush(stdout);
+      if (r.ok) fprintf(g_proto, "RESULT OK %016llx %d - -\n", (unsigned long long) r.hash, r.nontrivial ? 1 : 0);
+           else fprintf(g_proto, "RESULT VIOL %016llx %d %s %s\n", (unsigned long long) r.hash, r.nontrivial ? 1 : 0, r.cls.c_str(), Esc(r.detail).c_str());
+      fprintf(g_proto, "AGG {\"runs\":1,\"nontrivial\":%d,\"sim_us\":%llu,\"stats\":%s}\n", r.nontrivial ? 1 : 0, (unsigned long long) r.simMicros, r.stats.json().c_str());
+      fflush(g_proto);
       _exit(r.ok ? 0 : 1);
    }
    if (mode == "search")
@@ -304,7 +309,15 @@ int WorkerMain(int argc, char ** argv, const WorkerDef & def)
       std::vector<uint64_t> idxList;
       if (idxFile) {for (auto & l : ReadPlanFile(idxFile)) idxList.push_back(ToU(l));}
       const double t0 = RealNowSec();
-      Stats agg; uint64_t runs = 0, nontrivial = 0, simUs = 0, hprinted = 0; double lastAggAt = t0;
+      static Stats agg; static uint64_t runs = 0, nontrivial = 0, simUs = 0; uint64_t hprinted = 0; double lastAggAt = t0;
+      static FILE * s_hashesF = NULL; s_hashesF = hashesF;
+      // a sanitizer abort in an in-process run prints nothing of ours: hand over the counters of the runs since the last instalment from the death callback
+      if (pd->forkPerRun == false) __sanitizer_set_death_callback([]() {
+         static bool once = false; if (once) return; once = true;
+         char b[128]; const int n = snprintf(b, sizeof(b), "\nAGG {\"runs\":%llu,\"nontrivial\":%llu,\"sim_us\":%llu,\"stats\":", (unsigned long long) runs, (unsigned long long) nontrivial, (unsigned long long) simUs);
+         fflush(g_proto); (void) !write(fileno(g_proto), b, (size_t) n); const std::string j = agg.json(); (void) !write(fileno(g_proto), j.data(), j.size()); (void) !write(fileno(g_proto), "}\n", 2);
+         if (s_hashesF) fflush(s_hashesF);
+      });
       const uint64_t total = idxFile ? idxList.size() : count;
       for (uint64_t k=0; k<total; k++)
       {
@@ -319,9 +332,9 @@ int WorkerMain(int argc, char ** argv, const WorkerDef & def)
          {
             if (RunOneForked(seed, NULL, r, crash) == false)
             {
-               printf("CRASH %llu %llu %d %d\n", (unsigned long long) idx, (unsigned long long) seed, WIFEXITED(crash) ? WEXITSTATUS(crash) : -1, WIFSIGNALED(crash) ? WTERMSIG(crash) : 0);
-               printf("AGG {\"runs\":%llu,\"nontrivial\":%llu,\"sim_us\":%llu,\"stats\":%s}\n", (unsigned long long) runs, (unsigned long long) nontrivial, (unsigned long long) simUs, agg.json().c_str());
-               fflush(stdout); if (hashesF) fclose(hashesF);
+               fprintf(g_proto, "CRASH %llu %llu %d %d\n", (unsigned long long) idx, (unsigned long long) seed, WIFEXITED(crash) ? WEXITSTATUS(crash) : -1, WIFSIGNALED(crash) ? WTERMSIG(crash) : 0);
+               fprintf(g_proto, "AGG {\"runs\":%llu,\"nontrivial\":%llu,\"sim_us\":%llu,\"stats\":%s}\n", (unsigned long long) runs, (unsigned long long) nontrivial, (unsigned long long) simUs, agg.json().c_str());
+               fflush(g_proto); if (hashesF) fclose(hashesF);
                _exit(5);
             }
          }
@@ -330,23 +343,23 @@ int WorkerMain(int argc, char ** argv, const WorkerDef & def)
          if ((r.ok)&&((runs >= 256)||((RealNowSec()-lastAggAt) > 2.0)))
          {
             // counters are handed over in instalments, so that a later sanitizer abort (which prints nothing) loses at most the runs since the last one
-            printf("AGG {\"runs\":%llu,\"nontrivial\":%llu,\"sim_us\":%llu,\"stats\":%s}\n", (unsigned long long) runs, (unsigned long long) nontrivial, (unsigned long long) simUs, agg.json().c_str());
-            fflush(stdout); if (hashesF) fflush(hashesF);
+            fprintf(g_proto, "AGG {\"runs\":%llu,\"nontrivial\":%llu,\"sim_us\":%llu,\"stats\":%s}\n", (unsigned long long) runs, (unsigned long long) nontrivial, (unsigned long long) simUs, agg.json().c_str());
+            fflush(g_proto); if (hashesF) fflush(hashesF);
             runs = nontrivial = simUs = 0; agg = Stats(); lastAggAt = RealNowSec();
          }
          if ((hashesF)&&(r.nontrivial)&&(r.ok)) fwrite(&r.hash, sizeof(r.hash), 1, hashesF);
-         if ((idxFile)||((hsample > 0)&&((idx % hsample) == 0)&&(hprinted < hmax))) {printf("H %llu %016llx\n", (unsigned long long) idx, (unsigned long long) r.hash); hprinted++;}
+         if ((idxFile)||((hsample > 0)&&((idx % hsample) == 0)&&(hprinted < hmax))) {fprintf(g_proto, "H %llu %016llx\n", (unsigned long long) idx, (unsigned long long) r.hash); hprinted++;}
          if (r.ok == false)
          {
-            printf("AGG {\"runs\":%llu,\"nontrivial\":%llu,\"sim_us\":%llu,\"stats\":%s}\n", (unsigned long long) runs, (unsigned long long) nontrivial, (unsigned long long) simUs, agg.json().c_str());
-            printf("VIOL %llu %llu %016llx %s %s\n", (unsigned long long) idx, (unsigned long long) seed, (unsigned long long) r.hash, r.cls.c_str(), Esc(r.detail).c_str());
-            fflush(stdout); if (hashesF) fclose(hashesF);
+            fprintf(g_proto, "AGG {\"runs\":%llu,\"nontrivial\":%llu,\"sim_us\":%llu,\"stats\":%s}\n", (unsigned long long) runs, (unsigned long long) nontrivial, (unsigned long long) simUs, agg.json().c_str());
+            fprintf(g_proto, "VIOL %llu %llu %016llx %s %s\n", (unsigned long long) idx, (unsigned long long) seed, (unsigned long long) r.hash, r.cls.c_str(), Esc(r.detail).c_str());
+            fflush(g_proto); if (hashesF) fclose(hashesF);
             _exit(3);
          }
       }
-      printf("AGG {\"runs\":%llu,\"nontrivial\":%llu,\"sim_us\":%llu,\"stats\":%s}\n", (unsigned long long) runs, (unsigned long long) nontrivial, (unsigned long long) simUs, agg.json().c_str());
-      printf("END\n");
-      fflush(stdout); if (hashesF) fclose(hashesF);
+      fprintf(g_proto, "AGG {\"runs\":%llu,\"nontrivial\":%llu,\"sim_us\":%llu,\"stats\":%s}\n", (unsigned long long) runs, (unsigned long long) nontrivial, (unsigned long long) simUs, agg.json().c_str());
+      fprintf(g_proto, "END\n");
+      fflush(g_proto); if (hashesF) fclose(hashesF);
       _exit(0);   // skip static destructors: nothing of the system under test outlives a run
    }
    fprintf(stderr, "unknown mode %s\n", mode.c_str());
